@@ -108,8 +108,12 @@ impl LocoTrait for BatteryElectricLoco {
             None,
             None,
         )?;
-        self.edrv
-            .set_cur_pwr_max_out(self.res.state.pwr_prop_out_max, None)?;
+        // the battery may be unable to cover its own aux load (`pwr_prop_out_max < 0`); that is not
+        // a negative tractive limit
+        self.edrv.set_cur_pwr_max_out(
+            self.res.state.pwr_prop_out_max.max(si::Power::ZERO),
+            None,
+        )?;
         self.edrv
             .set_cur_pwr_regen_max(self.res.state.pwr_regen_out_max)?;
 
